@@ -20,7 +20,7 @@ EXPLANATION = ("Theorems in coq/Props/C14.v over ANY assignment of Add/Inc/Done/
                "of the monitor model coq/Conc/Monitor.v (lock, park, wake, re-check, context end, helper broadcast): Wait returns only at an instant at "
                "which the counter is zero or its context has ended; no thread is ever parked in Wait while the counter is zero (every waiter is released, "
                "any number of rounds); a parked waiter whose context has ended always has its helper's broadcast pending; the counter is the sum of the completed non-panicking Adds; a negative Add panics and changes nothing; goroutines "
-               "started by Launch/DoTimes are counted from before they start until after they end, and DoTimes/StartGroup with ANY count n grow the counter by exactly max(0,n) (a non-positive count is a no-op). The model is tied to /repo on every run: sequential "
+               "started by Launch/DoTimes are counted from before they start until after they end, and DoTimes/StartGroup with ANY count n grow the counter by exactly max(0,n) (a non-positive count is a no-op); the launched goroutine calls Done on every exit path (return, panic, Goexit) whatever the launch context; Wait's zero-check and park are one critical section (refuted for a check outside the mutex). The model is tied to /repo on every run: sequential "
                "differential of wg_step against the real WaitGroup, and concurrent rounds / cancellation / Launch scenarios whose outcome the model predicts.")
 READY = True
 LEVEL_TEXT = ("Machine-checked Coq theorems (axiom-free) on a code-level model of fun.WaitGroup as an instance of a generic mutex+cond monitor transition "
@@ -30,7 +30,7 @@ LEVEL_TEXT = ("Machine-checked Coq theorems (axiom-free) on a code-level model o
               "are modelled, not verified.")
 LEVEL_NOTE = ("Trusted: Coq kernel + vm_compute; hand transcription of sync.go into Model/WaitGroupModel.v; sync.Mutex/sync.Cond/context semantics as modelled in "
               "Conc/Monitor.v; scheduler fairness. Correspondence = differential testing (about 4k sequential cases, 1500 multi-round concurrent scenarios, "
-              "500 cancellation, 700 Launch and 500 DoTimes-with-any-count scenarios per quick run; thorough adds a GOMAXPROCS=64 stress hunting the cancellation race that the repair "
+              "500 cancellation, 700 Launch and 500 DoTimes-with-any-count, 400 launch-context/exit-path scenarios and ~10k Wait-races-last-Done rounds per quick run; thorough adds a GOMAXPROCS=64 stress hunting the cancellation race that the repair "
               "of sync.go:134 closed); blocking verdicts only with 10 s bounds.")
 TECHNIQUE = ("Coq proof (inductive invariants over a mutex/condition-variable transition system, any number of threads, any schedule) "
              "+ vm_compute correspondence against the real fun.WaitGroup (sequential differential and concurrent scenarios with stamped histories)")
